@@ -122,3 +122,16 @@ MUTANTS += [
     M("c02-kwargs-call", "C02", "__call__ drops kwargs", (N, "            kwargs = tuple(kwargs.items())\n            return syncreq(_self, consts.HANDLE_CALL, args, kwargs)", "            kwargs = ()\n            return syncreq(_self, consts.HANDLE_CALL, args, kwargs)")),
     M("c02-metaclass-methods", "C02", "metaclass methods not discovered", (L, "        mros = list(reversed(type(obj).__mro__)) + list(reversed(obj.__mro__))", "        mros = list(reversed(obj.__mro__))")),
 ]
+
+MUTANTS += [
+    # ---- C07
+    M("c07-cmp-no-policy", "C07", "comparison handler skips the policy (CVE-2019-16328)", (P, 'return self._access_attr(type(obj), op, (), "_rpyc_getattr", "allow_getattr", getattr)(obj, other)', 'return getattr(type(obj), op)(obj, other)')),
+    M("c07-pickle-always", "C07", "allow_pickle test removed", (P, '        if not self._config["allow_pickle"]:\n            raise ValueError("pickling is disabled")', '        pass')),
+    M("c07-global-table", "C07", "LOCAL_REF falls back to a process-global id table", (P, "        if label == consts.LABEL_LOCAL_REF:\n            return self._local_objects[value]", "        if label == consts.LABEL_LOCAL_REF:\n            try:\n                return self._local_objects[value]\n            except KeyError:\n                import ctypes\n                return ctypes.cast(value[2], ctypes.py_object).value if isinstance(value[2], int) and value[2] in {id(o) for o in gc.get_objects()} else self._local_objects[value]")),
+    M("c07-getattr-fallback", "C07", "_handle_getattr falls back to plain getattr on AttributeError", (P, '        return self._access_attr(obj, name, (), "_rpyc_getattr", "allow_getattr", getattr)\n\n    def _handle_delattr', '        try:\n            return self._access_attr(obj, name, (), "_rpyc_getattr", "allow_getattr", getattr)\n        except AttributeError:\n            return getattr(obj, name)\n\n    def _handle_delattr')),
+    M("c07-vinegar-import", "C07,C09", "vinegar imports modules named by the payload when not configured", (V, "    if import_custom_exceptions and modname not in sys.modules:", "    if modname not in sys.modules:")),
+    M("c07-shared-local-objects", "C07,C16", "connections of one process share the table of exported objects", (P, "        self._local_objects = RefCountingColl()", "        self._local_objects = _SHARED_OBJECTS"), (P, "_connection_id_generator = itertools.count(1)", "_connection_id_generator = itertools.count(1)\n_SHARED_OBJECTS = RefCountingColl()")),
+    M("c07-oldslicing-bypass", "C07", "oldslicing fallback uses plain getattr", (P, "            getslice = self._handle_getattr(obj, fallback)", "            getslice = getattr(obj, fallback)")),
+    M("c07-setattr-allowed", "C07,C06", "setattr permitted by default", (P, "    allow_setattr=False,", "    allow_setattr=True,")),
+    M("c07-instancecheck-eval", "C07", "instancecheck resolves class names by import", (P, "        else:  # might just have missed cache, FIX ME\n            return False", "        else:  # might just have missed cache, FIX ME\n            try:\n                __import__(str(other_id_pack[0]).rsplit('.', 1)[0])\n            except Exception:\n                pass\n            return False")),
+]
